@@ -497,9 +497,18 @@ def build(ctx):
     t += 'impl DisconnectReason {\n'
     t += C.fn(TYPES, 'impl DisconnectReason :: fn from_quinn_error', 'DisconnectReason::from_quinn_error', ['C09'], probe=False)
     t += '}\n'
+    import re as _re
+    from unitlib import extract as _extract
+    try:
+        _src = _extract(C.repo, 'crates/anemo/src/network/request_handler.rs', 'impl InboundRequestHandler :: fn start').text
+    except Exception:
+        _src = ''
+    _mj = _re.search(r'let\s+mut\s+(\w+)\s*=\s*(?:tokio::task::)?JoinSet::new\(\)', _src)
+    _ml = _re.search(r'let\s+(\w+)\s*=\s*loop\b', _src)
+    JS, CRN = (_mj.group(1) if _mj else 'inflight_requests'), (_ml.group(1) if _ml else 'close_reason')
     t += C.lifted('crates/anemo/src/network/request_handler.rs', 'impl InboundRequestHandler :: fn start', 'InboundRequestHandler::start::tail',
-                  ['C04', 'C05', 'C09'], anchor='let close_reason = loop', kind='tail', name='inbound_request_handler_start_tail', is_async=True,
-                  params='active_peers: &ActivePeers, connection: &Connection, close_reason: ConnectionError, inflight_requests: &mut JoinSet<()>',
+                  ['C04', 'C05', 'C09'], anchor='let %s = loop' % CRN, kind='tail', name='inbound_request_handler_start_tail', is_async=True,
+                  params='active_peers: &ActivePeers, connection: &Connection, %s: ConnectionError, %s: &mut JoinSet<()>' % (CRN, JS),
                   rewrites=[dict(rule='X10', pattern='self.active_peers', repl='active_peers', optional=True), dict(rule='X10', pattern='self.connection', repl='connection', optional=True),
                             dict(rule='X5', pattern='crate::types::DisconnectReason', repl='DisconnectReason', optional=True)])
     t += C.helpers_here()
